@@ -1,0 +1,16 @@
+//go:build verif
+
+// Contracts for gzv (contract-based deductive verification, /verif). Comment-only file.
+package syncx
+
+// Atomic cells are plain cells for a sequential reader (atomicity of one access is what sync/atomic gives).
+// AtomicDuration is an int64 behind a pointer cast; the three accessors are specified through the model field adVal.
+//@ ghost var adVal map[*AtomicDuration]time.Duration
+//@ func (d *AtomicDuration) Load
+//@   trusted
+//@   ensures result == adVal[d]
+//@   modifies nothing
+//@ func (d *AtomicDuration) Set
+//@   trusted
+//@   ensures adVal[d] == val
+//@   modifies adVal[d]
